@@ -355,7 +355,6 @@ class XMIResource(Resource):
 
     def save(self, output=None, options=None):
         self.options = options or {}
-        output = self.open_out_stream(output)
         self.prefixes.clear()
         self.reverse_nsmap.clear()
 
@@ -383,6 +382,9 @@ class XMIResource(Resource):
         xmi_version = QName(XMI_URL, 'version')
         xmi_root.attrib[xmi_version] = '2.0'
         tree = ElementTree(xmi_root)
+        # the target is opened (and thereby truncated) only now that the whole
+        # tree exists: a model that cannot be serialized leaves it untouched
+        output = self.open_out_stream(output)
         tree.write(output,
                    pretty_print=True,
                    xml_declaration=True,
